@@ -18,6 +18,14 @@ def text_of(arg):
     return arg
 
 
+class _ReadOnly(object):
+    def __init__(self, inner):
+        self._inner = inner
+
+    def read(self, n=-1):
+        return self._inner.read(n)
+
+
 def install(handler):
     import sys
     import dateutil.parser as P
@@ -31,9 +39,20 @@ def install(handler):
             seen = arg
             kind = type(arg).__name__
             if hasattr(arg, 'read'):
+                # ... with the capabilities and the position of the original: a consumed prefix stays consumed, a stream
+                # without seek() stays without
+                try:
+                    pos = arg.tell() if hasattr(arg, 'tell') else 0
+                except Exception:
+                    pos = 0
+                seekable = hasattr(arg, 'seek')
                 data = arg.read()
                 seen = data
-                arg = io.StringIO(data) if isinstance(data, str) else io.BytesIO(data)
+                filler = ('X' if isinstance(data, str) else b'X') * pos
+                arg = io.StringIO(filler + data) if isinstance(data, str) else io.BytesIO(filler + data)
+                arg.read(pos)
+                if not seekable:
+                    arg = _ReadOnly(arg)
                 kind = 'stream'
             try:
                 out = ('ok', orig(self, arg, *a, **k))
